@@ -61,7 +61,7 @@ def k_int1d(ctx):
                           + MC.integrate_column(y[k:], x[k:]), I))
 
 
-@harness("C14.integrate-2d", cases=lambda tier: [(2, 3), (3, 2)] + ([(2, 2, 2), (3, 2, 2), (4, 3)] if tier == "thorough" else []),
+@harness("C14.integrate-2d", cases=lambda tier: [(2, 3), (3, 2), (2, 3, 2)] + ([(2, 2, 2), (3, 2, 2), (4, 3), (2, 3, 4), (2, 2, 3, 2)] if tier == "thorough" else []),
          expect=lambda c: ["axis-result-shape", "axis-equals-trapezoid"])
 def k_int2d(ctx):
     shape = ctx.case
@@ -235,9 +235,9 @@ PLAN = {
     "thorough": {"harnesses": ["C14.integrate-1d", "C14.integrate-2d", "C14.iwv", "C14.crh", "C14.p2z"],
                  "opts": {"query_timeout_ms": 120000}},
 }
-BOUNDS = {"quick": {"integrate_column": "1-D n <= 4 levels; 2-D shapes (2,3), (3,2) along both axes; all real y, x",
+BOUNDS = {"quick": {"integrate_column": "1-D n <= 4 levels; shapes (2,3), (3,2), (2,3,2) along every axis; all real y, x",
                     "iwv / crh / pressure2height": "n <= 3 levels, strictly decreasing p > 0, T > 0 (arbitrary profile, and isothermal with any T), vmr, q in [0,1)"},
-          "thorough": {"integrate_column": "1-D n <= 8; adds shapes (2,2,2), (3,2,2), (4,3)", "iwv / p2z": "n <= 4; isothermal n <= 5"}}
+          "thorough": {"integrate_column": "1-D n <= 8; adds shapes (2,2,2), (3,2,2), (4,3), (2,3,4), (2,2,3,2)", "iwv / p2z": "n <= 4; isothermal n <= 5"}}
 OUTSIDE = ["convergence of the two IWV formulations to each other and of pressure2height to (RT/g) ln(p0/p) (limits; the isothermal layer "
            "thickness is decided to be the trapezoidal value of that integral)",
            "standard_atmosphere (scipy interp1d)", "grids beyond the level bound", "floating point"]
